@@ -124,6 +124,20 @@ def splitFrames : Nat → Bytes → Option (List Bytes)
         | none => none
         | some fs => some (body :: fs)
 
+/-- cut a byte stream at its length prefixes as far as complete frames go: the complete frames, and what is left — the
+beginning of a frame whose announced length is not there yet (or fewer than four bytes) -/
+def splitStream : Nat → Bytes → List Bytes × Bytes
+  | 0, bs => ([], bs)
+  | fuel+1, bs =>
+    match rdN 4 bs with
+    | none => ([], bs)
+    | some (len, r) =>
+      match takeN len r with
+      | none => ([], bs)
+      | some (body, rest) =>
+        let p := splitStream fuel rest
+        (body :: p.1, p.2)
+
 def readBodies (mode : Mode) : Cache → List Bytes → Option (List Item)
   | _, [] => some []
   | cache, [] :: fs => (readBodies mode cache fs).map (Item.tick :: ·)
